@@ -55,6 +55,12 @@ func (d capDesc) src() string {
 		}
 		sb.WriteString(v)
 		sb.WriteString(strings.Repeat(")", d.A))
+	case "chainZ":
+		for i := 0; i < d.A; i++ {
+			sb.WriteString("(" + d.Op + " (one) ")
+		}
+		sb.WriteString("(one)")
+		sb.WriteString(strings.Repeat(")", d.A))
 	case "chainL":
 		for i := 0; i < d.A; i++ {
 			sb.WriteString("(" + d.Op + " ")
@@ -113,6 +119,9 @@ func famCap() {
 		for _, a := range big {
 			ds = append(ds, capDesc{fam, "+", a, 0})
 		}
+	}
+	for _, a := range small {
+		ds = append(ds, capDesc{"chainZ", "+", a, 0})
 	}
 	for _, a := range []int{0, 1, 5, 7, 8, 9, 15, 16, 17, 4094, 4095, 4096, 8190, 8191, 8192} {
 		ds = append(ds, capDesc{"ifchain", "+", a, 0})
